@@ -2,10 +2,13 @@
    theorems talk about) on implementation states. *)
 open Sm
 open Codec
-let handles (cmd : string) = (cmd = "M")
+let handles (cmd : string) = (cmd = "M" || cmd = "EV")
 let run (cmd : string) (i : inst) (args : sx list) : unit =
   match cmd, args with
   | "M", [x] ->
       let v = clause_vector i (p_state x) in
+      ps "("; List.iteri (fun k b -> if k > 0 then ps " "; ps (if b then "1" else "0")) v; ps ")"
+  | "EV", [x; tr; x'] ->
+      let v = event_vector i (p_state x) (p_tr tr) (p_state x') in
       ps "("; List.iteri (fun k b -> if k > 0 then ps " "; ps (if b then "1" else "0")) v; ps ")"
   | _ -> ps "(error monitor-args)"
